@@ -8,6 +8,7 @@ import (
 	"crypto/rsa"
 	"fmt"
 	"net"
+	"os"
 	"strings"
 	"time"
 
@@ -352,6 +353,80 @@ func runSession(cl *ssh.Client, cmd string, cap time.Duration) (string, bool) {
 	}
 }
 
+// fakeConn is the connection metadata the SSH library hands to the server's callbacks.
+type fakeConn struct {
+	user    string
+	session string
+}
+
+func (f fakeConn) User() string          { return f.user }
+func (f fakeConn) SessionID() []byte     { return []byte(f.session) }
+func (f fakeConn) ClientVersion() []byte { return []byte("SSH-2.0-verif") }
+func (f fakeConn) ServerVersion() []byte { return []byte("SSH-2.0-dtail") }
+func (f fakeConn) RemoteAddr() net.Addr {
+	return &net.TCPAddr{IP: net.IPv4(127, 0, 0, 1), Port: 40000 + len(f.session)}
+}
+func (f fakeConn) LocalAddr() net.Addr { return &net.TCPAddr{IP: net.IPv4(127, 0, 0, 1), Port: 2222} }
+
+// c09CallbackHistories: the SSH protocol lets a client send any number of authentication requests on one
+// connection, each naming its own user and key.  Every sequence of <=3 requests over 2 connections x 3 users x 3
+// keys goes through the real PublicKeyCallback; each answer must depend on that request's user and key alone.
+func c09CallbackHistories(c *core.Ctx) {
+	WriteAuthorizedKeys("alice", Keys[0].Line+"\n")
+	WriteAuthorizedKeys("mallory", "# mallory\n"+Keys[1].Line+"\n"+Keys[2].Line+"\n")
+	os.Remove(fmt.Sprintf("%s/cache/nokeys.authorized_keys", core.Scratch()))
+	listed := map[string]map[int]bool{"alice": {0: true}, "mallory": {1: true, 2: true}, "nokeys": {}}
+	type req struct {
+		Session string `json:"connection"`
+		User    string `json:"user"`
+		Key     int    `json:"key"`
+	}
+	var alpha []req
+	for _, s := range []string{"conn-1", "conn-2"} {
+		for _, u := range []string{"alice", "mallory", "nokeys"} {
+			for k := 0; k < 3; k++ {
+				alpha = append(alpha, req{s, u, k})
+			}
+		}
+	}
+	n := 3
+	var rec func(cur []req)
+	item := 0
+	rec = func(cur []req) {
+		if len(cur) > 0 {
+			item++
+			if item%c.NShards == c.Shard {
+				for i, r := range cur {
+					_, err := sshserver.PublicKeyCallback(fakeConn{r.User, r.Session}, Keys[r.Key].Pub)
+					got, want := err == nil, listed[r.User][r.Key]
+					if i == len(cur)-1 {
+						key := ""
+						if want {
+							key = fmt.Sprintf("callback-history|%v", cur)
+						}
+						c.Count(key)
+					}
+					if got != want {
+						sig := "key-accepted-for-a-user-who-does-not-list-it"
+						if want {
+							sig = "listed-key-rejected-after-other-requests-on-the-connection"
+						}
+						c.Violation(sig, fmt.Sprintf("authentication requests %+v on the real PublicKeyCallback (alice lists key 0, mallory keys 1 and 2, nokeys has no file): request %d answered accepted=%v, want %v", cur, i+1, got, want), cur)
+						return
+					}
+				}
+			}
+		}
+		if len(cur) == n {
+			return
+		}
+		for _, a := range alpha {
+			rec(append(append([]req{}, cur...), a))
+		}
+	}
+	rec(nil)
+}
+
 func init() {
 	core.Register(&core.Check{
 		ID:    "C09",
@@ -359,12 +434,13 @@ func init() {
 		Rule: "A: authorized_keys files = all sequences of <=3 (quick) / <=4 (thorough) lines over 11 line kinds (rsa/ed25519/ecdsa keys, key with options, key with comment, comment, blank, whitespace, garbage word, CRLF, commented-out key), " +
 			"with/without final newline, x 4 offered keys, through the real verifyAuthorizedKeys: an unlisted key is never accepted, and every key listed in a well-formed file is accepted.  B: the real Server.Callback for 11 user names (incl. case variants of the service users) x 9 passwords x " +
 			"4 source addresses x 4 job configurations: granted <=> health user with the health password, or job user whose password is a configured job name and whose address is on that job's allow list.  C: 19 real SSH handshakes (incl. one per key type rsa/ed25519/ecdsa-P256/P384/P521 and per RSA signature algorithm) against an " +
-			"in-process server and 8 commands in a real health session (no file content, session ends).  non-trivial = cases where a grant is expected",
+			"in-process server and 8 commands in a real health session (no file content, session ends).  D: every sequence of <=3 authentication requests over 2 connections x 3 users x 3 keys through the real PublicKeyCallback (a client may name a different user in every request): each answer depends on that request's user and key alone.  non-trivial = cases where a grant is expected",
 		Assumptions: []string{"proof of key possession and signature checks are x/crypto/ssh's (trusted)", "net.LookupIP of literal IP addresses needs no resolver"},
 		Serial:      false,
 		Run: func(c *core.Ctx) {
 			Setup()
 			c09Keys(c)
+			c09CallbackHistories(c)
 			if c.Shard == 0 {
 				c09Passwords(c)
 				c09Handshakes(c)
